@@ -95,7 +95,7 @@ pub fn explore_pairs(w: &World, member: &str, regime: Regime, max_pairs: usize, 
                     let passed_at_start = start_epoch > root_epoch + w.pool[i].node.len() as u64;
                     match (sib, last_restart) {
                         (_, None) => "no-restart",
-                        (None, Some(_)) if passed_at_start => "restart-after-competitor-applied",
+                        (_, Some(_)) if passed_at_start => "restart-after-competitor-applied",
                         (Some(p), Some(r)) if r > p => "restart-after-competitor-applied",
                         (Some(_), Some(_)) => "restart-before-competitor-applied",
                         (None, Some(_)) => "restart-no-competitor",
